@@ -126,8 +126,7 @@ Definition s_solve_lu (self_ : (matrix A)) (b_ : (list (T A))) : res (list (T A)
        then (Panic Guard)
        else (let x_ := b_ in
             let* (self_, _pivots_, permutation_) := lu_decomp self_ in
-            let* r2 := multiply permutation_ x_ in
-            let x_ := r2 in
+            let* x_ := multiply permutation_ x_ in
             let* x_ := for_ 0 (rows self_) (fun i_ (x_ : (list (T A))) =>
                     for_ 0 i_ (fun k_ (x_ : (list (T A))) =>
                         let* xk_ := rd x_ k_ in
